@@ -75,7 +75,30 @@ def run(res, args):
         dcases.append("display %s %d 4096" % (gen.hx(s), 1000))
         meta.append((s, 400000))
         res.count("rtcmfilter with log writers and a slow output writer")
-    ins = ins + slow + quiet + several
+    # long displays: runs of 5-16 large MSM messages (several KB of text each) behind a writer that takes 2-20 ms per
+    # call, so that tens of KB of display are pending when the input ends
+    big = []
+    import msmgen
+    specs = [msmgen.abstract(rng, k7=(i % 3 != 0), shape=(rng.randint(6, 16), rng.randint(2, 4)), multi=False)[0] for i in range(60)]
+    slines, _ = common.run_lines(common.MODEL_BIN, "msmspec", ["msmspec " + t for t in specs])
+    pool = []
+    for line in slines or []:
+        parts = dict(p.split("=", 1) for p in line.split(" ", 3))
+        if parts.get("wf") == "1":
+            pool.append(bytes.fromhex(parts["frame"]))
+    # every prefix length 5..16 of one sequence of messages: wherever a writer-side batching scheme draws its batch
+    # boundaries in that sequence, some prefix ends exactly on each of them
+    for q in range(2 if res.tier == "quick" else 10):
+        seq_msgs = [(rng.choice(pool) if pool and rng.random() < 0.9 else gen.rand_frame(rng, small=False)) for _ in range(16)]
+        lat = [20000, 8000][q % 2]
+        for n in range(5, 17):
+            s = b"".join(seq_msgs[:n])
+            big.append(s)
+            fcases.append("filter %s 0 0 %d 65536" % (gen.hx(s), lat))
+            dcases.append("display %s %d 65536" % (gen.hx(s), lat))
+            meta.append((s, lat))
+            res.count("displayrtcm3/rtcmfilter: 5-16 large MSM messages (2-6 KB of text each) behind an 8-20 ms writer")
+    ins = ins + slow + quiet + several + big
     # expected output from sequential framing (model), cross-checked with the implementation's stream handler
     scases = ["stream %d debug %s" % (framing.T0, gen.hx(s)) for s in ins]
     simpl, smodel = framing.run_both(res, "stream", scases)
